@@ -16,10 +16,7 @@ theorem wants_eq_qualifies (tasks : String → Option Edge) (t : String) (i : Na
   cases tasks t with
   | none => rfl
   | some e =>
-    simp only [Option.map_some, sinkGets]
-    cases e.task.froms[i]? with
-    | none => rfl
-    | some f => simp only [selects_eq_matches]
+    simp only [Option.map_some, sinkGets, selectedBy_eq_chainGets]
 
 /-- Forking a batch of points: the tables do not move, the sink gets exactly the wanted points, in order. -/
 theorem forkBatch {db rp : String} (t : String) (i : Nat) (pts : List RawPoint) :
